@@ -105,6 +105,10 @@ type Outcome struct {
 	Dumps      int
 	Adopted    int
 	PolicyName string
+	// Decisions hashes the decision log: for every step the released task
+	// and the set of tasks it was chosen from, and how the run ended. Unlike
+	// Signature it does not contain the sites.
+	Decisions string
 }
 
 // Policy kinds (drawn per run).
@@ -158,6 +162,7 @@ type Sched struct {
 
 	panicMu sync.Mutex
 	panics  map[string]string
+	decHash uint64
 
 	out      Outcome
 	dumpBuf  []byte
@@ -835,6 +840,11 @@ func (s *Sched) Run() Outcome {
 		sort.Slice(cands, func(i, j int) bool { return cands[i].id < cands[j].id })
 		t := s.pick(cands, fair)
 		s.step++
+		s.decide(uint64(s.step))
+		s.decide(uint64(t.id))
+		for _, c := range cands {
+			s.decide(uint64(c.id) + 1<<32)
+		}
 		if s.lastPicked >= 0 && s.lastPicked != t.id {
 			s.out.Switches++
 		}
@@ -849,9 +859,18 @@ func (s *Sched) Run() Outcome {
 		rawWrite(t.wfd, rel[:])
 	}
 
-	stuck := s.out.Deadlock || s.out.NoProgress || s.out.Trouble != "" || s.out.Leaked > 0
+	stuck := s.out.Deadlock || s.out.NoProgress || s.out.Trouble != ""
 	if !stuck {
-		s.wg.Wait() // the real join: only now may the harness read what tasks wrote
+		// the real join: only now may the harness read what tasks wrote.
+		// (Also when goroutines were left behind - Leaked: every root has
+		// returned, so this does not block, and without it the race
+		// detector sees the harness read results with no happens-before
+		// edge from the calls that produced them: a persistent worker pool
+		// that outlives the call - benign change C10-g1 - was reported as a
+		// race between the user callback and the harness.)
+		s.wg.Wait()
+	}
+	if !stuck && s.out.Leaked == 0 {
 		active = nil
 	} else {
 		// goroutines are left behind and may still consult 'active': leave
@@ -863,6 +882,14 @@ func (s *Sched) Run() Outcome {
 	s.panicMu.Unlock()
 	s.out.Steps = s.step
 	s.out.Tasks = len(s.tasks)
+	for _, f := range []bool{s.out.Deadlock, s.out.NoProgress, s.out.Leaked > 0} {
+		if f {
+			s.decide(1)
+		} else {
+			s.decide(0)
+		}
+	}
+	s.out.Decisions = fmt.Sprintf("%016x", s.decHash)
 	// canonical order: by step, then task, then arrival within the task
 	sort.SliceStable(s.events, func(i, j int) bool {
 		a, b := s.events[i], s.events[j]
@@ -875,7 +902,30 @@ func (s *Sched) Run() Outcome {
 		return a.seq < b.seq
 	})
 	s.out.Events = s.events
+	if f := os.Getenv("VERIF_EVENTS"); f != "" {
+		// debugging aid: append the canonical event log of every run
+		if w, err := os.OpenFile(f, os.O_CREATE|os.O_APPEND|os.O_WRONLY, 0o644); err == nil {
+			fmt.Fprintf(w, "--- run policy=%s steps=%d tasks=%d\n", s.out.PolicyName, s.step, len(s.tasks))
+			for _, e := range s.events {
+				fmt.Fprintf(w, "%d %d %s %d rel=%d\n", e.Step, e.Task, e.Site, e.Aux, e.Released)
+			}
+			w.Close()
+		}
+	}
 	return s.out
+}
+
+// decide folds one value into the decision-log hash (FNV-1a over 8 bytes).
+func (s *Sched) decide(v uint64) {
+	h := s.decHash
+	if h == 0 {
+		h = 14695981039346656037
+	}
+	for i := 0; i < 8; i++ {
+		h ^= (v >> (8 * i)) & 0xff
+		h *= 1099511628211
+	}
+	s.decHash = h
 }
 
 // Dirty is set when a run left goroutines behind (deadlock, no progress):
@@ -910,4 +960,3 @@ func (s *Sched) TaskName(id int) string {
 	return fmt.Sprint(id)
 }
 
-var _ = os.Getpid
